@@ -1,3 +1,7 @@
--- facts regenerated from /repo by extract/ on every run
+-- facts and code regenerated from /repo by extract/ on every run
 import Generated.Facts
-import Generated.GoCode
+import Generated.GoHistory
+import Generated.GoFeed
+import Generated.GoAnsi
+import Generated.GoStyle
+import Generated.GoObject
